@@ -61,6 +61,8 @@ func (v Value) MarshalJSON() ([]byte, error) {
 		} else {
 			p = v.O
 		}
+	case "":
+		return json.Marshal(map[string]interface{}{"k": "null", "v": 0}) // the zero Value is null
 	default:
 		return nil, fmt.Errorf("unknown value tag %q", v.K)
 	}
